@@ -276,62 +276,43 @@ def kwargs_sets(n, kwname):
     return out
 
 
-def ctor_chain(model, cls):
-    """follow the constructor chain of cls along its MRO, tracking the ensure_io_loop keyword.
-    returns Chain.  Straight-line approximation: `kwargs[k] = True` anywhere in a constructor counts for calls after it."""
+def ctor_chain(model, cls, ctx=None):
+    """follow the constructor of cls down to Stream.__init__ on the event paths (helpers, Base.__init__(self, ..), super(),
+    module-level helpers that take the node are spliced; the content of the **kwargs dicts travels with them) and report
+    whether ensure_io_loop=True is effective at every call of Stream.__init__.  returns Chain."""
+    from ..ctx import Ctx
     ch = Chain()
     stream_init = model.stream.methods['__init__']
     fn = cls.find('__init__')
-    kw = {}             # abstract content of the **kwargs dict being forwarded
-    seen = set()
-
-    def follow(fn, kw, incoming_explicit):
-        if fn is None or fn.fq in seen and fn is not stream_init:
-            return
-        seen.add(fn.fq)
-        ch.steps.append(fn.qual)
-        if fn is stream_init:
-            ch.reaches_stream += 1
-            v = incoming_explicit.get('ensure_io_loop', kw.get('ensure_io_loop'))
-            ch.ensure = bool(v) if v is not None else False
-            return
-        kwname = fn.node.args.kwarg.arg if fn.node.args.kwarg else None
-        local_kw = dict(kw) if kwname else {}
-        # keywords consumed by named parameters of this constructor are not forwarded in **kwargs
-        named = set(fn.params()) | {a.arg for a in fn.node.args.kwonlyargs}
-        for k in list(local_kw):
-            if k in named:
-                del local_kw[k]
-        for k, v in incoming_explicit.items():
-            if k not in named and kwname:
-                local_kw[k] = v
-        stmts = sorted([n for n in own_nodes(fn.node) if isinstance(n, (ast.Assign, ast.Expr, ast.Call))],
-                       key=lambda n: (n.lineno, n.col_offset))
-        for n in stmts:
-            if kwname:
-                local_kw.update(kwargs_sets(n, kwname))
-            call = n.value if isinstance(n, ast.Expr) else None
-            if isinstance(call, ast.Call) and isinstance(call.func, ast.Attribute) and call.func.attr == '__init__':
-                target = None
-                recv = call.func.value
-                if isinstance(recv, ast.Call) and isinstance(recv.func, ast.Name) and recv.func.id == 'super':
-                    owner = fn.owner
-                    if owner is not None and owner in cls.mro:
-                        target = cls.find_after(owner, '__init__')
-                else:
-                    base = model.resolve_name(fn.module, recv)
-                    if isinstance(base, Class):
-                        target = base.find('__init__')
-                if target is None:
-                    continue
-                explicit = {k.arg: (isinstance(k.value, ast.Constant) and k.value.value) for k in call.keywords if k.arg}
-                forwards = any(k.arg is None and isinstance(k.value, ast.Name) and k.value.id == kwname for k in call.keywords)
-                fkw = dict(local_kw) if forwards else {}
-                if forwards and 'ensure_io_loop' in explicit and 'ensure_io_loop' in fkw:
-                    ch.twice = True
-                follow(target, fkw, explicit)
-
-    follow(fn, kw, {})
+    if fn is None:
+        return ch
+    if fn is stream_init:
+        ch.reaches_stream, ch.ensure, ch.steps = 1, False, [fn.qual]
+        return ch
+    if ctx is None or ctx.model is not model:
+        ctx = Ctx(model, 2, 6, 'quick')
+    paths = ctx.paths(fn, cls, depth=6, no_inline=('_set_asynchronous', '_set_loop', '_check_end', 'start', '_get_com'))
+    reaches, ens = set(), set()
+    steps = [fn.qual]
+    for st, status in paths:
+        if is_failure(st.events, status):
+            continue
+        hits = [e for e in st.events if e.kind == 'ENTER' and e.x.get('callee') is stream_init]
+        reaches.add(len(hits))
+        for e in st.events:
+            if e.kind == 'ENTER' and e.x['callee'].qual not in steps:
+                steps.append(e.x['callee'].qual)
+        for e in hits:
+            ens.add(e.x.get('kw', {}).get('ensure_io_loop') is True)
+            if 'ensure_io_loop' in (e.x.get('kw_twice') or ()):
+                ch.twice = True
+        # a key supplied twice anywhere along the chain is a TypeError at construction
+        for e in st.events:
+            if e.kind == 'ENTER' and 'ensure_io_loop' in (e.x.get('kw_twice') or ()):
+                ch.twice = True
+    ch.steps = steps
+    ch.reaches_stream = 1 if reaches == {1} else (max(reaches) if reaches else 0)
+    ch.ensure = (ens == {True})
     return ch
 
 
